@@ -339,6 +339,14 @@ def _structure_returns(body: list[ast.stmt]) -> list[ast.stmt] | None:
             new = ast.Try(body=inner, handlers=st.handlers, orelse=[], finalbody=[])
             ast.copy_location(new, st)
             return body[:i] + [new]
+        if isinstance(st, ast.With) and any(isinstance(n, ast.Return) for n in ast.walk(st)) and i == len(body) - 1:
+            # `with open(..) as f: ...; return X` as the last statement: the return stays the tail of the managed block
+            inner = _structure_returns(st.body)
+            if inner is None or not _always_returns(inner):
+                return None
+            new = ast.With(items=st.items, body=inner)
+            ast.copy_location(new, st)
+            return body[:i] + [new]
         if isinstance(st, (ast.For, ast.While, ast.Try, ast.With, ast.AsyncFor, ast.AsyncWith)) and any(isinstance(n, ast.Return) for n in ast.walk(st)):
             return None
         if isinstance(st, ast.If) and any(isinstance(n, ast.Return) for n in ast.walk(st)):
@@ -365,6 +373,8 @@ def _always_returns(body) -> bool:
         return _always_returns(last.body) and _always_returns(last.orelse)
     if isinstance(last, ast.Try) and not last.orelse and not last.finalbody:
         return _always_returns(last.body) and all(_always_returns(h.body) for h in last.handlers)
+    if isinstance(last, ast.With):
+        return _always_returns(last.body)
     return False
 
 
@@ -376,6 +386,10 @@ def _replace_returns(body, make):
             out.extend(make(st.value if st.value is not None else ast.Constant(value=None)))
         elif isinstance(st, ast.If):
             new = ast.If(test=st.test, body=_replace_returns(st.body, make) or [ast.Pass()], orelse=_replace_returns(st.orelse, make))
+            ast.copy_location(new, st)
+            out.append(new)
+        elif isinstance(st, ast.With) and any(isinstance(n, ast.Return) for b_ in st.body for n in ast.walk(b_)):
+            new = ast.With(items=st.items, body=_replace_returns(st.body, make) or [ast.Pass()])
             ast.copy_location(new, st)
             out.append(new)
         elif isinstance(st, ast.Try) and any(isinstance(n, ast.Return) for b_ in st.body for n in ast.walk(b_)):
@@ -449,6 +463,7 @@ def _inline_helpers(repo, ref_funcs: set[str], log: dict) -> None:
                         i += 1
         if not changed:
             break
+    _inline_new_properties(repo, ref_funcs, log)
     # a helper whose every call was inlined no longer exists for the rules
     for q, h in new_helpers.items():
         if q in ALWAYS_INLINE:
@@ -468,6 +483,45 @@ def _inline_helpers(repo, ref_funcs: set[str], log: dict) -> None:
             elif hasattr(h.module, 'functions') and isinstance(h.module.functions, dict):
                 h.module.functions.pop(h.name, None)
             log.setdefault(q, []).append('helper fully inlined: removed from the function index')
+
+
+def _inline_new_properties(repo, ref_funcs: set[str], log: dict) -> None:
+    """A property the reviewed tree does not have whose getter is one `return <effect-free expression over self>` is that expression
+    wherever a method of the class family reads `self.<name>`."""
+    for q, p in list(repo.functions.items()):
+        if q in ref_funcs or p.kind != 'property' or p.cls is None or p.name in p.cls.setters:
+            continue
+        body = [b for b in p.node.body if not (isinstance(b, ast.Expr) and isinstance(b.value, ast.Constant))]
+        if len(body) != 1 or not isinstance(body[0], ast.Return) or body[0].value is None or not _is_pure(body[0].value):
+            continue
+        selfname = p.node.args.args[0].arg if p.node.args.args else 'self'
+        if any(isinstance(n, ast.Name) and n.id not in (selfname,) and n.id in {a.arg for a in p.node.args.args} for n in ast.walk(body[0].value)):
+            continue
+        # a subclass overriding the name would make `self.<name>` mean something else there
+        if any(p.name in c.methods and c.methods[p.name] is not p for c in p.cls.all_subclasses()):
+            continue
+        n_done = 0
+        for c in [p.cls] + p.cls.all_subclasses():
+            for f in list(c.methods.values()) + list(c.setters.values()):
+                if f is p or not f.node.args.args:
+                    continue
+                recv = f.node.args.args[0].arg
+
+                class R(ast.NodeTransformer):
+                    def visit_Attribute(self_, node):
+                        self_.generic_visit(node)
+                        if isinstance(node.ctx, ast.Load) and node.attr == p.name and isinstance(node.value, ast.Name) and node.value.id == recv:
+                            nonlocal n_done
+                            n_done += 1
+                            e = copy.deepcopy(body[0].value)
+                            if recv != selfname:
+                                e = _Subst({selfname: ast.Name(id=recv, ctx=ast.Load())}).visit(e)
+                            _set_lines(e, node)
+                            return e
+                        return node
+                R().visit(f.node)
+        if n_done:
+            log.setdefault(q, []).append(f'new one-expression property read in place ({n_done} use(s))')
 
 
 def _carry_imports(fi, stmts, helpers, caller_locals):
